@@ -51,10 +51,17 @@ def mk_map_op(t, dims, kind):
         stmt, ref = 'm = m*a + m;', 'm[i] = m[i]*a[i] + m[i];'
     elif kind == 'fill':
         stmt, ref = 'm.fill(s);', 'm[i] = s;'
-    wit = 'static_assert(sizeof(%s) > 0, "complete type");\nextern "C" void @W@(%s* buf, const %s& a, const %s& b, %s s){ %s m(buf); %s }' % (tensor_t(t, dims), ct, tensor_t(t, dims), tensor_t(t, dims), ct, mt, stmt)
-    refc = 'extern "C" void @R@(%s* m, const %s* a, const %s* b, %s s){ for(int i=0;i<%d;i++){ %s } }' % (ct, ct, ct, ct, n, ref)
+    elif kind in ('iadd_int', 'isub_int', 'imul_int', 'idiv_int', 'set_int'):
+        # a scalar of INTEGRAL type on the right (m /= 3, m *= k): separate overloads of the scalar assignment kernels
+        o = {'iadd_int': '+', 'isub_int': '-', 'imul_int': '*', 'idiv_int': '/', 'set_int': ''}[kind]
+        stmt = 'm %s= k;' % o
+        ref = 'm[i] = m[i] %s (%s)k;' % (o, ct) if o else 'm[i] = (%s)k;' % ct
+    elif kind == 'idiv_lit':
+        stmt, ref = 'm /= 2;', 'm[i] = m[i] / (%s)2;' % ct
+    wit = 'static_assert(sizeof(%s) > 0, "complete type");\nextern "C" void @W@(%s* buf, const %s& a, const %s& b, %s s, int k){ %s m(buf); %s }' % (tensor_t(t, dims), ct, tensor_t(t, dims), tensor_t(t, dims), ct, mt, stmt)
+    refc = 'extern "C" void @R@(%s* m, const %s* a, const %s* b, %s s, int k){ for(int i=0;i<%d;i++){ %s } }' % (ct, ct, ct, ct, n, ref)
     return Witness('map_%s_%s_%s' % (kind, t, 'x'.join(map(str, dims))), 'map.write.' + kind, {'type': t, 'dims': list(dims), 'kind': kind}, wit, refc, regions,
-                   [{'mod': 'wit', 'fn': '@W@', 'args': ['buf', 'a', 'b', {'scalar': 's'}]}, {'mod': 'ref', 'fn': '@R@', 'args': ['bref', 'a', 'b', {'scalar': 's'}]}],
+                   [{'mod': 'wit', 'fn': '@W@', 'args': ['buf', 'a', 'b', {'scalar': 's'}, {'int': 3}]}, {'mod': 'ref', 'fn': '@R@', 'args': ['bref', 'a', 'b', {'scalar': 's'}, {'int': 3}]}],
                    [{'kind': 'equal', 'a': 'buf', 'b': 'bref', 'cells': n, 'mode': mode}])
 
 
@@ -222,7 +229,7 @@ def witnesses(tier, seed):
     sizes = [[1], [3], [4], [7], [8], [9], [16], [17], [33], [2, 3], [4, 4], [3, 5], [2, 3, 4]] + ([] if quick else [[5], [12], [31], [32], [5, 8], [8, 8], [2, 2, 2, 3]])
     for dims in sizes:
         for t in T3 + (['i64'] if not quick else []):
-            for kind in ('assign_expr', 'iadd', 'imul_scalar', 'isub_expr', 'self_expr', 'fill'):
+            for kind in ('assign_expr', 'iadd', 'imul_scalar', 'isub_expr', 'self_expr', 'fill', 'iadd_int', 'isub_int', 'imul_int', 'idiv_int', 'idiv_lit'):
                 W.append(mk_map_op(t, dims, kind))
             for kind in ('expr', 'copy', 'sum'):
                 W.append(mk_map_read(t, dims, kind))
